@@ -98,4 +98,21 @@ func init() {
 		Old: "for p.curToken.Type != token.E_END && !p.curTokenIs(token.EOF) {", New: "for !p.curTokenIs(token.E_END) && !p.curTokenIs(token.EOF) {"})
 	addMutant(Mutant{Name: "equiv-guard-early-continue", Prop: "C03", File: "ast/array_literal.go", Equivalent: true,
 		Old: "		if el != nil {\n			elements = append(elements, el.String())\n		}", New: "		if el == nil {\n			continue\n		}\n		elements = append(elements, el.String())"})
+	// ---- C08 ----
+	addMutant(Mutant{Name: "revert-for-flag-reset", Prop: "C08", File: "parser/parser.go",
+		Old: "	wasInForBlock := p.inForBlock\n	defer func() { p.inForBlock = wasInForBlock }()\n	p.inForBlock = true\n	s := []string{}",
+		New: "	p.inForBlock = true\n	s := []string{}", Expect: "R5"})
+	addMutant(Mutant{Name: "revert-fn-flag-reset", Prop: "C08", File: "parser/parser.go",
+		Old: "	wasInForBlock := p.inForBlock\n	defer func() { p.inForBlock = wasInForBlock }()\n	p.inForBlock = false\n", New: "	p.inForBlock = false\n", Expect: "R5"})
+	addMutant(Mutant{Name: "slice-loop-from-one", Prop: "C08", File: "compiler.go",
+		Old: "for i := 0; i < riter.Len(); i++ {", New: "for i := 1; i < riter.Len(); i++ {", Expect: "R2"})
+	addMutant(Mutant{Name: "slice-loop-drops-continue-unwrap", Prop: "C08", File: "compiler.go",
+		Old: "		for i := 0; i < riter.Len(); i++ {\n			v := riter.Index(i)\n			c.ctx.Set(node.KeyName, i)\n			c.ctx.Set(node.ValueName, v.Interface())\n\n			res, err := c.evalBlockStatement(node.Block)\n			if err != nil {\n				return nil, err\n			}\n\n			breakLoop := false\n			switch val := res.(type) {\n			case continueObject:\n				res = val.Value\n			case breakObject:",
+		New: "		for i := 0; i < riter.Len(); i++ {\n			v := riter.Index(i)\n			c.ctx.Set(node.KeyName, i)\n			c.ctx.Set(node.ValueName, v.Interface())\n\n			res, err := c.evalBlockStatement(node.Block)\n			if err != nil {\n				return nil, err\n			}\n\n			breakLoop := false\n			switch val := res.(type) {\n			case breakObject:", Expect: "R1"})
+	addMutant(Mutant{Name: "break-loses-partial-output", Prop: "C08", File: "compiler.go",
+		Old: "obj = breakObject{Value: append(res, obj.Value...)}", New: "obj = breakObject{Value: obj.Value}", Expect: "R4"})
+	addMutant(Mutant{Name: "map-loop-key-value-swapped", Prop: "C08", File: "compiler.go",
+		Old: "			c.ctx.Set(node.KeyName, k.Interface())\n			c.ctx.Set(node.ValueName, v.Interface())", New: "			c.ctx.Set(node.KeyName, v.Interface())\n			c.ctx.Set(node.ValueName, k.Interface())", Expect: "R2"})
+	addMutant(Mutant{Name: "equiv-slice-loop-neq-header", Prop: "C08", File: "compiler.go", Equivalent: true,
+		Old: "for i := 0; i < riter.Len(); i++ {", New: "for i := 0; i != riter.Len(); i++ {"})
 }
